@@ -173,9 +173,11 @@ static std::string run_case(const Case& c) {
 		BoundingSphere b(pts);
 		return join(l_vec(b.center)) + "," + fstr(b.radius);
 	}
-	if (c.op == "bounds") {
-		// a shape created through the public API, its bounds recomputed by UpdateBounds()
-		auto pts = points_of(c.get("pts"));
+	if (c.op == "bounds" || c.op == "bounds2") {
+		// a shape created through the public API, its bounds recomputed by UpdateBounds();
+		// bounds2: created with pts0 (bounds computed once), then the vertices are MOVED to pts (same count)
+		// through SetVertsForShape and the bounds recomputed: they must enclose the new positions
+		auto pts = points_of(c.get(c.op == "bounds2" ? "pts0" : "pts"));
 		std::string ver = c.get("ver");
 		NiVersion v = ver == "ob" ? NiVersion::getOB() : ver == "fo3" ? NiVersion::getFO3() : ver == "sk" ? NiVersion::getSK()
 					  : ver == "fo4" ? NiVersion::getFO4() : NiVersion::getSSE();
@@ -191,6 +193,14 @@ static std::string run_case(const Case& c) {
 		// make the stored bounds wrong first, so that only UpdateBounds can put them right
 		shape->SetBounds(BoundingSphere(Vector3(1e6f, 1e6f, 1e6f), 0.0f));
 		shape->UpdateBounds();
+		if (c.op == "bounds2") {
+			auto moved = points_of(c.get("pts"));
+			if (moved.size() != pts.size())
+				return "badcase";
+			nif.SetVertsForShape(shape, moved);
+			shape->SetBounds(BoundingSphere(Vector3(1e6f, 1e6f, 1e6f), 0.0f));
+			shape->UpdateBounds();
+		}
 		BoundingSphere b = shape->GetBounds();
 		std::vector<Vector3> back;
 		nif.GetVertsForShape(shape, back);
